@@ -2,6 +2,7 @@
 generator-written canonical names and reference `write!` arms."""
 
 import casing
+import noise
 
 FIXED_NAMES = [
     "alpha", "Beta", "two words", "héllo", "日本", "ß", "", "{{literal}}", "a{{b", "}}x{{", 'q"uote', "back\\slash",
@@ -26,7 +27,9 @@ INNER = {
     "bool": ["", ":>6", ":<7", ":?"],
 }
 
-SEGMENTS = [" ", "", "-", ": ", " é ", "{{", "}}", "{{}}", "x", " and ", "日本", "(", ")", "=", "{{ ", " }}", "\\\"", "%"]
+SEGMENTS = [" ", "", "-", ": ", " é ", "{{", "}}", "{{}}", "x", " and ", "日本", "(", ")", "=", "{{ ", " }}", "\\\"", "%",
+            # escaped text that LOOKS like a placeholder (must be printed literally)
+            "{{0}}", "{{1}}", "{{0:>4}}", "{{a}}", "{{value:03}}", "{{{{0}}}}", "{{name}} = "]
 
 FIELD_NAMES = ["a", "b", "name", "value", "x", "count", "_under", "field0", "s", "fmt", "self_", "n1", "ab", "abc", "a1",
                "field1", "na"]
@@ -54,6 +57,13 @@ def blen(s):
 
 def gen_fixed_attrs(rng):
     """returns (attr lines, canonical or None if identifier is canonical)"""
+    r = rng.random()
+    if r < 0.03:
+        return ['#[strum(serialize = "")]'], ""          # the empty string is a legal (and the longest) literal
+    if r < 0.05:
+        return ['#[strum(to_string = "")]'], ""
+    if r < 0.07:
+        return ['#[strum(serialize = "")]', '#[strum(serialize = "x")]'], "x"
     mode = rng.choice(["none", "to_string", "serialize", "serialize", "both"])
     attrs = []
     canonical = None
@@ -143,6 +153,11 @@ def generate(rng, seed, size):
         nvar = rng.randint(1, 7)
         # serialize_all: only together with identifiers whose word splitting is unambiguous (casing.py)
         style = rng.choice(casing.STYLES) if (rng.random() < 0.3 and not robust) else None
+        # systematic part: the first enums cover every serialize_all style, each with a variant named by its
+        # (non-ASCII) identifier alone
+        forced_style = (not robust) and ei < len(casing.STYLES)
+        if forced_style:
+            style = casing.STYLES[ei]
         simple = list(casing.SIMPLE_IDENTS)
         rng.shuffle(simple)
         lifetime = rng.random() < 0.08 and not robust
@@ -152,10 +167,18 @@ def generate(rng, seed, size):
             ident = "V%d" % vi if rng.random() < 0.8 else rng.choice(["Alpha", "BetaGamma", "X1", "HTTPServer", "snake_name"]) + str(vi)
             if style is not None:
                 ident = simple.pop()
+            if forced_style and vi == 0:
+                ident = ["ÉcranTitre", "ÜberGross", "ÑandúÁgil"][ei % 3]
+                if ident in simple:
+                    simple.remove(ident)
+                kind = "unit"
+                disabled = False
             disabled = rng.random() < 0.1 and vi > 0
             v = dict(ident=ident, kind=kind, disabled=disabled, attrs=[], fixed=None, literal=None, tys=[], fnames=[], ref=None)
             if kind == "unit":
                 attrs, canon = gen_fixed_attrs(rng)
+                if forced_style and vi == 0:
+                    attrs, canon = [], None
                 v["attrs"] = attrs
                 v["fixed"] = canon if canon is not None else (casing.convert(ident, style) if style else ident)
             else:
@@ -205,9 +228,10 @@ def generate(rng, seed, size):
             out.append("#[strum(serialize_all = %s)]\n" % rs(style))
         out.append("pub enum %s%s {\n" % (ename, decl))
         for v in variants:
-            if v["disabled"]:
-                out.append("    #[strum(disabled)]\n")
-            for a in v["attrs"]:
+            lines = (["#[strum(disabled)]"] if v["disabled"] else []) + list(v["attrs"])
+            if not robust:
+                lines = noise.place(rng, lines, noise.variant_noise(rng, 0.25, False))
+            for a in lines:
                 out.append("    %s\n" % a)
             if v["kind"] == "unit":
                 out.append("    %s,\n" % v["ident"])
